@@ -114,7 +114,8 @@ def make_stream(name, seed, tier):
     if name == "api":
         return list(gen.stream_api(seed, n))
     if name == "script":
-        return list(gen.stream_script(seed, n)) + list(gen.nested_chain_cases(seed, max(20, n // 15)))
+        return (list(gen.stream_script(seed, n)) + list(gen.nested_chain_cases(seed, max(20, n // 15)))
+                + list(gen.rescue_cases(seed, max(40, n // 15))))
     if name == "panic":
         return list(gen.stream_panic(seed, n))
     if name == "elide":
@@ -146,8 +147,12 @@ def make_stream(name, seed, tier):
 
 # ---------------------------------------------------------------------------------------------
 def sh(cmd, cwd=None, timeout=3600, env=None):
-    p = subprocess.run(cmd, cwd=cwd, shell=isinstance(cmd, str), stdout=subprocess.PIPE, stderr=subprocess.STDOUT,
-                       timeout=timeout, env=env)
+    try:
+        p = subprocess.run(cmd, cwd=cwd, shell=isinstance(cmd, str), stdout=subprocess.PIPE, stderr=subprocess.STDOUT,
+                           timeout=timeout, env=env)
+    except subprocess.TimeoutExpired as ex:
+        out = (ex.stdout or b"").decode(errors="replace")
+        return 124, out + f"\nTIMEOUT: did not finish within {timeout} s"
     return p.returncode, p.stdout.decode(errors="replace")
 
 
@@ -503,12 +508,14 @@ def abort_check(cases):
 
 
 def bigring_check(tier):
+    # a call that needs well under a second with linear code gets minutes: running into the limit is itself the finding
+    BIG_TIMEOUT = 240 if tier == "quick" else 1800
     sizes = [1000, 20000] if tier == "quick" else [1000, 20000, 100000, 400000]
     out = []
     bad = []
     for shape in ("ring", "chords", "selfmix"):
         for n in sizes:
-            rc, o = sh([engine.HEXEC, "bigring", shape, str(n)], timeout=1800)
+            rc, o = sh([engine.HEXEC, "bigring", shape, str(n)], timeout=BIG_TIMEOUT)
             line = o.strip().split("\n")[-1] if o.strip() else ""
             out.append(f"{shape} n={n}: {line}")
             if rc != 0 or "ok" not in line:
@@ -519,7 +526,7 @@ def bigring_check(tier):
     hn = 30000 if tier == "quick" else 60000
     times = {}
     for shape, n in (("hub", hn), ("hub", 4 * hn)):
-        rc, o = sh([engine.HEXEC, "bigring", shape, str(n)], timeout=1800)
+        rc, o = sh([engine.HEXEC, "bigring", shape, str(n)], timeout=BIG_TIMEOUT)
         line = o.strip().split("\n")[-1] if o.strip() else ""
         out.append(f"{shape} n={n}: {line}")
         mm = _re.search(r"secs=([0-9.]+)", line)
@@ -531,15 +538,15 @@ def bigring_check(tier):
         # Noise (a loaded machine) only ever adds time: before blaming the code, measure the big hub twice more and keep
         # the minimum (an inflated small measurement only makes the test more lenient).
         for _ in range(2):
-            if times[4 * hn] <= 8 * times[hn] + 0.3:
-                break
-            rc, o = sh([engine.HEXEC, "bigring", "hub", str(4 * hn)], timeout=1800)
+            if times[4 * hn] <= 8 * times[hn] + 0.3 or times[4 * hn] > 4 * (8 * times[hn] + 0.3):
+                break          # within the bound, or so far beyond it that noise cannot be the reason
+            rc, o = sh([engine.HEXEC, "bigring", "hub", str(4 * hn)], timeout=BIG_TIMEOUT)
             mm = _re.search(r"secs=([0-9.]+)", o.strip().split("\n")[-1] if o.strip() else "")
             if mm:
                 times[4 * hn] = min(times[4 * hn], float(mm.group(1)))
         if times[4 * hn] > 8 * times[hn] + 0.3:
             bad.append(f"hub of {4*hn} spokes took {times[4*hn]:.2f}s but a hub of {hn} spokes {times[hn]:.2f}s: super-linear")
-    rc, o = sh([engine.HEXEC, "bigring", "clique", "300" if tier == "quick" else "600"], timeout=1800)
+    rc, o = sh([engine.HEXEC, "bigring", "clique", "300" if tier == "quick" else "600"], timeout=BIG_TIMEOUT)
     line = o.strip().split("\n")[-1] if o.strip() else ""
     out.append(f"clique: {line}")
     if rc != 0 or "ok" not in line:
